@@ -130,6 +130,14 @@ func (res *Response) Write(data []byte) (int, error) {
 		pbuf := res.buffer
 		res.buffer = nil
 
+		// body bytes that were buffered before the head was encoded (the
+		// Content-Length was declared after a first Write) go behind it.
+		if pbuf != nil && res.bodyBuffer != nil {
+			pbuf = mempool.Append(pbuf, (*res.bodyBuffer)...)
+			mempool.Free(res.bodyBuffer)
+			res.bodyBuffer = nil
+		}
+
 		// Header has been sent, no cached head buffer,
 		// append the data to body buffer.
 		if pbuf == nil {
